@@ -95,6 +95,11 @@ def zipOpt (os : List Rat) (a b : Option (List Rat)) : List (Rat Ã— Option Rat Ã
 def family : List String :=
   ["bs", "bsrel", "bsres", "bsunc", "bss", "bssrel", "bssres", "ign0", "spherical", "marginalratio"]
 
+def pairUp : List String â†’ Option (List (String Ã— String))
+  | [] => some []
+  | a :: b :: r => (pairUp r).map ((a, b) :: Â·)
+  | _ => none
+
 def handle (args : List String) : Option String :=
   match args with
   | ["proball", p, o] => do
@@ -122,6 +127,13 @@ def handle (args : List String) : Option String :=
   | ["pd", name, I, D, ns] => do
       let (I, D) := (â† Driver.Cont.parseInterval? I, â† parseDataset? D)
       some (showOpt (computeSingle floatTr name D I (â† parseXR? ns)))
+  -- several metrics evaluated one after the other on the same dataset (name, interval, name, interval, â€¦): every
+  -- score is a function of the dataset and the interval alone
+  | "pdseq" :: D :: rest => do
+      let D â† parseDataset? D
+      let outs â† (â† pairUp rest).mapM fun (name, I) => do
+        some (showOpt (computeSingle floatTr name D (â† Driver.Cont.parseInterval? I) .nan))
+      some (" ".intercalate outs)
   | ["thrf", t, D] => do
       let D â† parseDataset? D
       some (match thresholdColumn D (â† parseXR? t) with
